@@ -1,4 +1,4 @@
-(* GENERATED from /repo by harness/c16.py on every run; do not edit *)
+(* GENERATED from /tmp/try-C16-25746 by harness/c16.py on every run; do not edit *)
 From Coq Require Import ZArith List.
 Import ListNotations.
 Open Scope Z_scope.
@@ -10,8 +10,8 @@ Definition ufm_oversize_uncached : bool := true.
 Definition ufm_uncached_purges : bool := true.
 Definition task_failure_forgets : bool := true.
 Definition write_file_opens_target_only : bool := true.
-Definition table_get_returns_copy : bool := true.
+Definition table_get_returns_copy : bool := false.  (* shape not recognised: TableStorage.get return not recognised: ['KLONG_UNDEFINED if df.empty else Table(df)'] *)
 Definition df_concat_old_first : bool := true.
 Definition df_sort_stable : bool := true.
 Definition df_keep_first : bool := true.
-Definition table_get_missing_undefined : bool := true.
+Definition table_get_missing_undefined : bool := false.
